@@ -128,7 +128,7 @@ PROPS["C14"] = dict(
 )
 
 PROPS["C19"] = dict(
-    modules=["Morlock.Props.C19", "Morlock.Props.C19Board"],
+    modules=["Morlock.Props.C19", "Morlock.Props.C19Board", "Morlock.Props.C19Any"],
     streams=["fenstrings", "engine"],
     level_text="Lean theorems (ALL strings). Move strings (Model.EngineM = Engine.Move / TakeBack / Reset, the model the engine stream ties to the code): on a well-formed position of a game not yet adjudicated, "
                "Move accepts a string iff it parses to a move that the REFERENCE calls legal there (move_accepted_iff, via C01.legal_perm and pseudo_nodup - the latter makes the first-match loop "
@@ -145,13 +145,13 @@ PROPS["C19"] = dict(
     rule="valid FEN x {token deletion/duplication/swap, digit inflation 0/9, long digit runs, Unicode digits & letters, NUL/tab/NBSP, field count changes, huge/negative/signed clocks} "
          "+ raw bytes + move/square strings; non-trivial = accepted, or longer than 10 runes; distinct by rune sequence",
     partial=["'well-formed value' is read as: non-nil, all views agree, re-encoding decodes to the same position; chess-level plausibility (kings, e.p. pawn) is not demanded of a FEN decoder",
-             "move_accepted_iff assumes the current position well-formed (WF): Decode does not guarantee that (castling rights without the king at home decode fine); for boards descending from a well-formed set-up by generated moves, take-backs and forks the hypothesis is discharged (C19Board.move_accepted_iff_genBoard, through C07Board's LineWF invariant over the history nodes); from a decoded FEN that is not WF the engine stream decides"
+             "move_accepted_iff assumes the current position well-formed (WF): Decode does not guarantee that (castling rights without the king at home decode fine); for boards descending from a well-formed set-up by generated moves, take-backs and forks the hypothesis is discharged (C19Board.move_accepted_iff_genBoard, through C07Board's LineWF invariant over the history nodes); from a decoded FEN that is not WF: C19Any gives the exact condition (firstDecides: necessary and sufficient for 'accepted iff the text denotes a move of LegalMoves'), a handy sufficient one (epClean and castleClean), the hypothesis-free directions (accepted => denotes a legal move of the model; rejected => unchanged), and a kernel-checked witness that the equivalence fails on an impossible position (8/8/4n3/r2P3K/8/8/8/k7 w - e6: the e.p. target holds a knight, the generator lists d5xe6 twice, the first - an illegal capture - decides, while LegalMoves lists the phantom e.p.); by the rules of chess the text denotes no legal move there, so the rejection is right and this is an observation about LegalMoves on impossible positions, not a finding"
              "position is not re-derived (no invariant over history nodes) - there the engine stream decides"],
     modelled=["board/fen/fen.go Decode; board/move.go ParseMove; board/square.go ParseSquare(Str), ParseFile, ParseRank -> Model.Fen; engine/engine.go Reset, Move, TakeBack, Position -> Model.EngineM"],
 )
 
 PROPS["C06"] = dict(
-    modules=["Morlock.Props.C06", "Morlock.Props.C06Queries", "Morlock.Props.C01", "Morlock.Props.GenTie", "Morlock.Props.C20Sargon", "Morlock.Props.C20Bernstein"],
+    modules=["Morlock.Props.C06", "Morlock.Props.C06Queries", "Morlock.Props.C01", "Morlock.Props.GenTie", "Morlock.Props.C20Sargon", "Morlock.Props.C20Bernstein", "Morlock.Props.C20Xray"],
     streams=["c06", "playq", "sargon", "bernstein"],
     level_text="Lean theorems (full, no enumeration of boards): for every square and EVERY occupancy < 2^64 the rook/bishop/queen attackboards computed through the "
                "rotated bitboards and the generated index tables equal the ray sets of the reference geometry (first blocker included); king, knight and pawn "
@@ -483,7 +483,7 @@ PROPS["C20"] = dict(
     modules=["Morlock.Props.C20", "Morlock.Props.C20Bernstein", "Morlock.Props.C20Sargon", "Morlock.Props.C20Turochamp", "Morlock.Props.C20TurochampFlt",
              "Morlock.Props.C20Books", "Morlock.Props.Flt", "Morlock.Props.GenTieEngines", "Morlock.Props.GenTieTurochamp", "Morlock.Props.C06", "Morlock.Props.C01",
              "Morlock.Props.Audit.C20TuroA", "Morlock.Props.Audit.C20TuroC", "Morlock.Props.Audit.C20TuroE", "Morlock.Props.Audit.C20MirrorI",
-             "Morlock.Props.Audit.C20Bsb1", "Morlock.Props.Audit.C20Bsb2", "Morlock.Props.Audit.C20Bsb3", "Morlock.Props.Audit.C20Bsb6", "Morlock.Props.Audit.C20Bsb7", "Morlock.Props.C20TuroMirror"],
+             "Morlock.Props.Audit.C20Bsb1", "Morlock.Props.Audit.C20Bsb2", "Morlock.Props.Audit.C20Bsb3", "Morlock.Props.Audit.C20Bsb6", "Morlock.Props.Audit.C20Bsb7", "Morlock.Props.C20TuroMirror", "Morlock.Props.C20Xray"],
     streams=["c20", "flt", "bernstein", "sargon", "turochamp", "books"],
     level_text="Lean theorems. Rules: the colour mirror is an involution and commutes with attacks, check, pseudo-legal and legal move generation, making a move and perft on every position "
                "with at most one king per side (C20.*_mirror; the hypothesis is shown necessary), lifted to the bitboard generator (model_legalMoves_mirror). Floating point: Model.Flt is an exact "
@@ -522,9 +522,9 @@ PROPS["C20"] = dict(
          "non-trivial = distinct script / operation",
     partial=["TUROCHAMP colour-blindness is proved for every well-formed Sane position, also with a check or an e.p. target (C20TuroMirror.evaluate_mirror: the mirror is proved on the bitboards, because for the side not to move the code generates phantom e.p. captures that no reference position describes - obs_phantom_mate shows one changing the evaluation); order independence is proved for Sane positions (not for decodable positions with 17+ men a side or back-rank pawns)"
              "order independence is proved for Sane positions (not for decodable positions with 17+ men a side or back-rank pawns)",
-             "BERNSTEIN finiteness is proved for 0 <= factor <= 10^4 (the shipped factor is 20; other values evaluate fine - kernel-checked samples - but are outside the theorem)",
+             "BERNSTEIN finiteness is proved for every factor an int32 - in fact |factor| <= 2^52 - can hold (C20Xray.eval_total_wide, factor_int32; ratio_total_int64: no float32 overflow, NaN or zero divisor for any int64 score)",
              "SARGON's model carries exact integers where Go carries float32: that they coincide (all values below 2^23) is a numeral fact plus the stream, not a theorem about Flt operations",
-             "SARGON FindAttackers x-ray chains proved sound, complete only for direct attackers",
+             "SARGON FindAttackers: the whole stack behind every attacker equals a reference written on the mailbox board (C20Xray.findAttackers_stacks_eq_spec: own side only, queen or the line's slider, never a pawn or king, in order of distance, a pinned man ends the stack)",
              "Go's unstable sort.Slice above 12 elements not modelled (values compared, no difference ever observed)"],
     modelled=["cmd/bernstein/bernstein/{eval,exchange,search}.go -> Model.Bernstein; pkg/eval/capture.go -> Model.EvalCapture; cmd/sargon/sargon/{eval,exchange,search}.go -> Model.Sargon; "
               "pkg/eval/pins.go -> Model.EvalPins; cmd/turochamp/turochamp/{eval,quiescence}.go -> Model.Turochamp; pkg/engine/book.go, cmd/*/book.go, fen.Strip -> Model.Book (+ Gen.Books); eval/eval.go Material -> Model (materialPawns); float32/float64 -> Model.Flt"],
